@@ -125,6 +125,20 @@ def run(tier, seed, which="C14"):
         ty = rng.choice(gen.TYPES_NUC if kind == "dna" else gen.TYPES_PROT)
         members = [dict(names=["read"] * n, seqs=v, type=ty, threads=1, dump_in=True) for v in variants]
         groups.append(dict(gid="samename_%d" % i, rel="pattern", prop="C14", members=members, key="samename:%s:%d" % (base, ty)))
+    # long sequences (300..1200 residues): the spelling must not matter at any position
+    for i, L in enumerate([350, 620] if tier == "quick" else [301, 350, 512, 620, 1030, 1200]):
+        kind = ["dna", "protein"][i % 2]
+        alpha = gen.DNA if kind == "dna" else gen.AA
+        base = gen.family(rng, 3, L, alpha, sub=0.1, indel=0.02)
+        if kind == "protein":
+            base = [x + "LKEF" for x in base]
+        variants = [base, [x.lower() for x in base], [gen.case_mask(rng, x, 0.5) for x in base],
+                    [x[:len(x) // 2] + x[len(x) // 2:].lower() for x in base]]
+        if kind == "dna":
+            variants.append([x.replace("T", "U") for x in base])
+        ty = rng.choice(gen.TYPES_NUC if kind == "dna" else gen.TYPES_PROT)
+        members = [dict(names=["l%d" % j for j in range(3)], seqs=v, type=ty, threads=2, dump_in=True) for v in variants]
+        groups.append(dict(gid="long_%d" % L, rel="pattern", prop="C14", members=members, key="long:%s:%d" % (base, ty)))
     # residues that spell words a format sniffer might look for (all letters are amino-acid codes), in upper, lower and mixed
     # case, on the first residue line and further down; protein and - where the letters allow - nucleotide inputs
     words = ["CLUSTAL", "CLUSTALW", "MSF", "MULTIPLE", "ALIGNMENT", "SEQUENCE", "NAME", "LEN", "CHECK", "WEIGHT", "KALIGN", "PILEUP", "TYPE", "FASTA", "STOCKHLM", "GAP"]
